@@ -20,9 +20,10 @@ KV = knotspace.KnotVector
 
 PRIVATE = ["_BaseCurve__knotvector", "_BaseCurve__ctrlpoints", "_BaseCurve__weights"]
 ALLOWED_WRITERS = {
-    "__knotvector": {"BaseCurve.__init__", "BaseCurve.update"},
-    "__ctrlpoints": {"BaseCurve.__init__", "BaseCurve.ctrlpoints"},
-    "__weights": {"BaseCurve.__init__", "BaseCurve.weights"},
+    # BaseCurve.apply writes the three fields only to put back the state it saved when its own commit is refused (D34); its V contract proves that
+    "__knotvector": {"BaseCurve.__init__", "BaseCurve.update", "BaseCurve.apply"},
+    "__ctrlpoints": {"BaseCurve.__init__", "BaseCurve.ctrlpoints", "BaseCurve.apply"},
+    "__weights": {"BaseCurve.__init__", "BaseCurve.weights", "BaseCurve.apply"},
 }
 MUTATORS = {"insert", "remove", "shift", "scale", "normalize", "convert"}
 
@@ -176,6 +177,10 @@ def ops_table():
         ("c|shifted", lambda c: c | Curve([F(3), F(3), F(4), F(4)], [F(0), F(1)]), False),
         ("cubic-left|c", lambda c: Curve([F(-1)] * 4 + [F(0)] * 4, [F(1), F(0), F(2), F(-1)]) | c, False),
         ("line-left|c", lambda c: Curve([F(-2), F(-2), F(0), F(0)], [F(1), F(3)]) | c, False),
+        # the public BaseCurve.apply itself: a matrix with one row too many (wrong number of control points: D34), an invalid knot vector, the identity
+        ("apply(kv, npts+1 rows)", lambda c: c.apply(list(c.knotvector), [[F(int(i == j)) for j in range(c.npts)] for i in range(c.npts + 1)]), True),
+        ("apply(unsorted kv, identity)", lambda c: c.apply([F(0), F(2), F(1)], [[F(int(i == j)) for j in range(c.npts)] for i in range(c.npts)]), True),
+        ("apply(kv, identity)", lambda c: c.apply(list(c.knotvector), [[F(int(i == j)) for j in range(c.npts)] for i in range(c.npts)]), True),
     ]
 
 
@@ -357,7 +362,7 @@ def tasks(tier, seed):
     from ..pyvc.driver import verify
     from ..contracts import curvesv
     ts = [(task_frames, ()), (task_copies, ()), (task_find_roots_length, ()), (task_float_operands, ())]
-    ts += [(verify, (c, m, q, v)) for c, m, q, v in curvesv.ALL if q not in ("Curve.eval", "norm")]
+    ts += curvesv.tasks_for({q for _c, _m, q, _v in curvesv.ALL if q not in ("Curve.eval", "norm")})
     from ..contracts import facade2
     # "KnotVector arithmetic returns deep copies": every non-in-place operator, copy and deepcopy return a new object and leave the operand alone (all vectors)
     ts += [(verify, (c, m, q, v)) for c, m, q, v in facade2.ALL]
